@@ -661,6 +661,40 @@ def t_solvers():
     return out
 
 
+def t_remap():
+    """Block.remap: order of composition of M and which map is applied to the (already renamed) interface sets"""
+    fn = find_def('blocks/block.py', 'Block.remap')
+    newmap = None
+    order = None
+    applied = {}
+    for st in fn.body:
+        if isinstance(st, ast.Assign):
+            t, v = ast.unparse(st.targets[0]), st.value
+            if isinstance(v, ast.Call) and ast.unparse(v.func) == 'Bijection' and ast.unparse(v.args[0]) == 'map':
+                newmap = t
+            if t == 'other.M' and isinstance(v, ast.BinOp) and isinstance(v.op, ast.MatMult):
+                l, r = ast.unparse(v.left), ast.unparse(v.right)
+                isnew = lambda u: u == 'Bijection(map)' or (newmap is not None and u == newmap)
+                if isnew(l) and r == 'self.M':
+                    order = 'true'
+                elif l == 'self.M' and isnew(r):
+                    order = 'false'
+                else:
+                    raise Unsupported('remap: composition ' + ast.unparse(v))
+            if t in ('other.inputs', 'other.outputs') and isinstance(v, ast.BinOp) and isinstance(v.op, ast.MatMult):
+                applied[t] = (ast.unparse(v.left), ast.unparse(v.right))
+    if order is None or set(applied) != {'other.inputs', 'other.outputs'}:
+        raise Unsupported('remap structure')
+    only_new = all((l == newmap or l == 'Bijection(map)') and r == 'self.' + t.split('.')[1] for t, (l, r) in applied.items())
+    out = f"Definition remap_new_after_old : bool := {order}.\n"
+    out += f"Definition remap_interface_uses_new_map_only : bool := {'true' if only_new else 'false'}.\n"
+    for (rel, qual) in (('blocks/het_block.py', 'HetBlock.process_hetinputs_hetoutputs'), ('blocks/stage_block.py', 'StageBlock.process_hetinputs')):
+        src = ast.unparse(find_def(rel, qual))
+        ok = 'self.inputs = self.M @ inputs' in src and ('self.outputs = self.M @ outputs' in src or 'Stage' in qual)
+        out += f"Definition {qual.split('.')[1]}_keeps_renaming : bool := {'true' if ok else 'false'}.\n"
+    return out
+
+
 TARGETS = {
     'MultiplyBasis': t_multiply_basis,
     'ComputeL': t_compute_l,
@@ -670,6 +704,7 @@ TARGETS = {
     'Kernels': t_kernels,
     'Interp': t_interp,
     'Solvers': t_solvers,
+    'Remap': t_remap,
 }
 
 
